@@ -139,6 +139,11 @@ class HalfTagger:
             return NEUTRAL
         if isinstance(e, ast.Attribute):
             d = dotted(e)
+            if d and d.startswith('self.pulses.') and d.endswith('.T') and d.count('.') == 3:
+                base = self.eval(e.value, at)
+                if base.famarr:
+                    return AV(base.tags, base.fams, base.roles, base.famarr + ('T',))
+                return base
             if d and d.startswith('self.pulses.'):
                 rest = d[len('self.pulses.'):]
                 if rest.startswith('matrix_'):
